@@ -16,7 +16,12 @@ impl Discriminants {
         for variant in variants {
             let this_discriminant = variant.discriminant.clone().map_or_else(
                 || quote! { #next_discriminant_if_not_specified },
-                |(_, e)| quote! { #e },
+                |(_, e)| match e {
+                    // a literal or a path cannot be re-associated by the `+ 1` appended below
+                    syn::Expr::Lit(_) | syn::Expr::Path(_) | syn::Expr::Paren(_) => quote! { #e },
+                    // any other expression is grouped, so that `A = 1 | 2, B` gives `B = (1 | 2) + 1`
+                    _ => quote! { (#e) },
+                },
             );
 
             next_discriminant_if_not_specified = quote! { #this_discriminant + 1 };
